@@ -109,43 +109,29 @@ Section RT.
     apply negb_true_iff in KD. now rewrite KD.
   Qed.
 
-  (** C13.1 (partial: the reload is assumed not to fail - that part is carried by the
-      correspondence and the oracle, not by this theorem; and "every typed entry of the map holds at
-      least one token", true by construction of store, is a hypothesis) *)
-  Theorem roundtrip_partial_thm P cli fs dflt s ftok s' oc :
+  (** what the specification of C20 assigns to a current option from the saved file of a state that parse() returned,
+      when the command line of the re-reading invocation does not give the option: the member's original value *)
+  Lemma spec_on_saved P cli fs dflt s items' :
     checker T P = true ->
-    find_opt (p_cfgopt P) = Some oc -> o_cli oc = true ->
-    (forall a c, In (a, c) (prog_aliases P) -> mem a (w_skip W) = true) ->
+    (forall a c, In (a, c) (prog_aliases P) -> mem a (w_skip W) = true \/ s_vm s a = None) ->
     w_precise W = true ->
     parse T wf P cli fs dflt = Run s ->
-    reload T wf W zerotok round6 P s ftok = Run s' ->
-    forall o, In o T -> is_canon o = true -> typed o = true -> o_name o <> p_cfgopt P ->
+    forall o, In o T -> is_canon o = true -> typed o = true ->
       mem (o_name o) (w_skip W) = false ->
       (String.eqb (o_name o) (w_alpha_name W)
        && Bool.eqb (var_is_zero zerotok (s_vars s) (w_alpha_var W)) (w_alpha_when_zero W)) = false ->
       saved_kind o = true ->
       (forall v d, s_vm s (o_name o) = Some (v, d) -> v <> []) ->
-      s_vars s' (o_var o) = s_vars s (o_var o).
+      occurs (o_name o) items' = false ->
+      spec_value T (prog_aliases P) items' (saved_items T W zerotok round6 s) o = s_vars s (o_var o).
   Proof.
-    intros CK Fc Cc SKal PR H1 H2 o Io Co To Nc SK AL KD NE.
+    intros CK SKal PR H1 o Io Co To SK AL KD NE O0.
     destruct (precedence_thm T wf P cli fs dflt s CK H1) as (items & RA & PV).
     destruct (vm_thm T wf P cli fs dflt s CK H1) as (items2 & RA2 & VM).
     rewrite RA in RA2. injection RA2 as <-.
     rewrite (PV o Io Co To), <- (VM o Io Co To).
-    unfold reload in H2.
-    destruct (precedence_thm T wf P _ _ _ s' CK H2) as (items' & RA' & PV').
-    cbn [resolve_all] in RA'. rewrite (resolve_exact _ _ Fc Cc) in RA'. injection RA' as <-.
-    rewrite (PV' o Io Co To).
     destruct (checker_facts T P CK) as (al & SH & ND & _).
-    match goal with |- context [loaded ?a ?b ?c ?d ?e] =>
-      replace (loaded a b c d e) with (saved_items T W zerotok round6 s) end.
-    2:{ unfold loaded, source, cfg_given. cbn [occurs existsb fst]. rewrite String.eqb_refl. cbn [orb].
-        unfold collect. rewrite Fc. cbn [flat_map fst snd]. rewrite String.eqb_refl, app_nil_r.
-        unfold ntoks. destruct (o_ty oc); reflexivity. }
-    unfold spec_value. cbv zeta. cbn [occurs existsb fst].
-    assert (E0 : String.eqb (p_cfgopt P) (o_name o) = false) by (apply String.eqb_neq; congruence).
-    rewrite E0. cbn [orb].
-    fold (occurs (o_name o) (saved_items T W zerotok round6 s)).
+    unfold spec_value at 1. cbv zeta. rewrite O0.
     unfold saved_items, save. fold to_item.
     change (map (fun l : string * tok => (fst l, [snd l]))) with (map to_item).
     rewrite occurs_lines, (lines_of_table s o T ND Io).
@@ -163,8 +149,41 @@ Section RT.
       { unfold alias_of in AO. destruct (find _ (prog_aliases P)) as [[a' c']|] eqn:F; [|discriminate].
         cbn in AO. injection AO as <-. apply find_some in F as [F1 F2]. cbn in F2. apply String.eqb_eq in F2. now subst. }
       rewrite occurs_lines, lines_none; [assumption|].
-      intros o' I' E'. unfold save_opt. destruct (s_vm s (o_name o')) as [[v' d']|]; [|reflexivity].
-      now rewrite E', (SKal _ _ Ia).
+      intros o' I' E'. unfold save_opt. destruct (SKal _ _ Ia) as [SK'|VN].
+      + destruct (s_vm s (o_name o')) as [[v' d']|]; [|reflexivity]. now rewrite E', SK'.
+      + now rewrite E', VN.
+  Qed.
+
+  (** C13.1 (partial: the reload is assumed not to fail - that part is carried by the
+      correspondence and the oracle, not by this theorem; and "every typed entry of the map holds at
+      least one token", true by construction of store, is a hypothesis) *)
+  Theorem roundtrip_partial_thm P cli fs dflt s ftok s' oc :
+    checker T P = true ->
+    find_opt (p_cfgopt P) = Some oc -> o_cli oc = true ->
+    (forall a c, In (a, c) (prog_aliases P) -> mem a (w_skip W) = true \/ s_vm s a = None) ->
+    w_precise W = true ->
+    parse T wf P cli fs dflt = Run s ->
+    reload T wf W zerotok round6 P s ftok = Run s' ->
+    forall o, In o T -> is_canon o = true -> typed o = true -> o_name o <> p_cfgopt P ->
+      mem (o_name o) (w_skip W) = false ->
+      (String.eqb (o_name o) (w_alpha_name W)
+       && Bool.eqb (var_is_zero zerotok (s_vars s) (w_alpha_var W)) (w_alpha_when_zero W)) = false ->
+      saved_kind o = true ->
+      (forall v d, s_vm s (o_name o) = Some (v, d) -> v <> []) ->
+      s_vars s' (o_var o) = s_vars s (o_var o).
+  Proof.
+    intros CK Fc Cc SKal PR H1 H2 o Io Co To Nc SK AL KD NE.
+    unfold reload in H2.
+    destruct (precedence_thm T wf P _ _ _ s' CK H2) as (items' & RA' & PV').
+    cbn [resolve_all] in RA'. rewrite (resolve_exact _ _ Fc Cc) in RA'. injection RA' as <-.
+    rewrite (PV' o Io Co To).
+    match goal with |- context [loaded ?a ?b ?c ?d ?e] =>
+      replace (loaded a b c d e) with (saved_items T W zerotok round6 s) end.
+    2:{ unfold loaded, source, cfg_given. cbn [occurs existsb fst]. rewrite String.eqb_refl. cbn [orb].
+        unfold collect. rewrite Fc. cbn [flat_map fst snd]. rewrite String.eqb_refl, app_nil_r.
+        unfold ntoks. destruct (o_ty oc); reflexivity. }
+    apply (spec_on_saved P cli fs dflt s _ CK SKal PR H1 o Io Co To SK AL KD NE).
+    cbn [occurs existsb fst]. rewrite orb_false_r. apply String.eqb_neq. congruence.
   Qed.
   (** checker of the writer rules (with the list of options that are deliberately not reproduced) *)
   Definition checker13 (P : prog) (exempt : list string) : bool :=
@@ -193,7 +212,7 @@ Section RT.
     pose proof (FA o Io) as K. rewrite Co, To, Ex in K. cbn in K. apply andb_prop in K as [K1 K2].
     apply negb_true_iff in K1.
     eapply roundtrip_partial_thm; eauto.
-    - intros a c I. exact (AS (a, c) I).
+    - intros a c I. left. exact (AS (a, c) I).
     - intro E. rewrite E in Ex. congruence.
   Qed.
 End RT.
